@@ -4,8 +4,11 @@ Fault enumeration: every base op sequence is first run without faults to learn h
 library makes; then it is run again with `failat k` (only the k-th request refused) and `failfrom k` (every
 request from the k-th on refused) for every k in 1..N.  Component 1 (containers: h_ds.c) and component 2
 (pointer heap, timer queue, event registration: h_allocfail.c) are proof-level: the Lean models thread the
-same oracle, L2 compares the whole state after every call.  Component 3 (network_read/write, netbuf, HTTP
-request, asprintf) has no Lean failure model: it is observed by the same sweep against the L1 monitor only.
+same oracle, L2 compares the whole state after every call.  Component 3 `upper` (whole sessions of network_read/write,
+netbuf, HTTP request over real sockets; asprintf users) has no Lean model of what happens after a request was started
+(callbacks, HTTP parser): it is observed by the same sweep against the L1 monitor only.  Component 4 `upstart` drives the
+start / registration / teardown calls of the same layers one at a time and compares them in lock-step with
+Model/AllocFail.lean (proof-level: Properties/C14.lean, `upper_*` theorems).
 """
 import re
 import vlib
@@ -15,11 +18,11 @@ MODULES = ["Percival.Properties.C14"]
 WRAP = "-Wl,--wrap=malloc,--wrap=calloc,--wrap=realloc,--wrap=free,--wrap=atexit"
 NOBUILTIN = c12.NOBUILTIN
 EV_SRCS = ["datastruct/timerqueue.c", "events/events_network_selectstats.c", "util/warnp.c"]
-UP_SRCS = ["events/events.c", "events/events_immediate.c", "events/events_network.c",
-           "events/events_network_selectstats.c", "events/events_timer.c", "datastruct/elasticarray.c",
-           "datastruct/ptrheap.c", "datastruct/timerqueue.c", "network/network_read.c", "network/network_write.c",
+# events/*.c, elasticarray.c, ptrheap.c, network_read.c and network_write.c are #included by h_af_upper.c (white-box)
+UP_SRCS = ["events/events_network_selectstats.c", "datastruct/timerqueue.c", "network/network_accept.c",
            "network/network_connect.c", "netbuf/netbuf_read.c", "netbuf/netbuf_write.c", "http/http.c", "util/sock.c",
-           "util/sock_util.c", "util/asprintf.c", "util/humansize.c", "util/monoclock.c", "util/warnp.c"]
+           "util/sock_util.c", "util/asprintf.c", "util/humansize.c", "util/monoclock.c", "util/warnp.c",
+           "aws/aws_sign.c", "alg/sha256.c", "util/hexify.c", "util/insecure_memzero.c"]
 KCAP = 70          # above this many allocations the k's are sampled (all k <= 24, then every third)
 
 
@@ -108,27 +111,37 @@ def bases_events(rng, tier):
 
 
 def bases_upper(rng, tier):
-    nb = 14 if tier == "quick" else 90
+    nb = 18 if tier == "quick" else 110
     out = []
     for bi in range(nb):
         r = rng.fork("up%d" % bi)
         ops = []
         for _ in range(r.range(2, 5 if tier == "quick" else 8)):
             k = r.below(100)
-            if k < 14:
-                ln = r.choice([1, 100, 4096, 20000])
-                ops.append("nw %d %d %d" % (ln, r.choice([1, ln, max(1, ln // 2)]), r.below(256)))
-            elif k < 28:
-                ln = r.choice([1, 100, 4096, 20000])
-                ops.append("nr %d %d %d" % (ln, r.choice([1, ln, max(1, ln // 2)]), r.below(256)))
-            elif k < 48:
+            if k < 12:
+                # 300000 / 1000000: more than a socket buffer takes at once, so the transfer is re-registered (`tryagain`)
+                ln = r.choice([1, 100, 4096, 20000, 300000, 1000000])
+                ops.append("nw %d %d %d" % (ln, r.choice([1, ln, ln, max(1, ln // 2)]), r.below(256)))
+            elif k < 24:
+                ln = r.choice([1, 100, 4096, 20000, 300000, 1000000])
+                ops.append("nr %d %d %d" % (ln, r.choice([1, ln, ln, max(1, ln // 2)]), r.below(256)))
+            elif k < 40:
                 ops.append("nbw %d %d %d" % (r.range(1, 6), r.choice([1, 10, 300, 4096, 5000]), r.below(256)))
-            elif k < 66:
+            elif k < 50:
                 chunk = r.choice([1, 100, 1000, 4096, 5000])
                 ops.append("nbr %d %d %d" % (chunk * r.range(1, 4) + r.below(3), chunk, r.below(256)))
-            elif k < 88:
-                ops.append("http %d" % r.below(3))
-            elif k < 95:
+            elif k < 62:
+                # waits of growing size: the buffer is enlarged while it holds consumed and unconsumed bytes
+                chunks = [r.choice([1, 10, 100, 1000, 3000])]
+                for _ in range(r.range(1, 4)):
+                    chunks.append(r.choice([chunks[-1], 4097, 5000, 9000, 20000, 70000]))
+                total = sum(chunks) + r.choice([0, 1, 500, 5000])
+                ops.append("nbrv %d %d %s" % (r.below(256), total, " ".join(map(str, chunks))))
+            elif k < 84:
+                ops.append("http %d" % r.below(5))
+            elif k < 92:
+                ops.append("aws %d %d" % (r.below(4), r.choice([0, 1, 55, 64, 1000])))
+            elif k < 97:
                 ops.append("hs %d" % r.choice([0, 999, 1000, 123456, 10 ** 12, (1 << 64) - 1]))
             else:
                 ops.append("spp")
@@ -136,6 +149,138 @@ def bases_upper(rng, tier):
         out.append(ops)
     # the sequence that exposed F7 (fixed): a refused reserve must not poison the writer
     out.append(["nbw 6 300 1", "nbw 3 5000 2", "end"])
+    # every signing entry point; interim (1xx) responses with header lines; a transfer bigger than the socket buffer as the
+    # first thing in a process (the event-record pool is empty, so re-registering allocates); growth of a part-consumed reader buffer
+    out.append(["aws 0 10", "aws 1 0", "aws 2 10", "aws 3 10", "end"])
+    out.append(["http 3", "http 4", "end"])
+    out.append(["nw 1000000 1000000 3", "end"])
+    out.append(["nr 1000000 1000000 4", "end"])
+    out.append(["nbrv 5 12000 100 5000 6000", "nbrv 6 30000 1000 9000 20000", "end"])
+    return out
+
+
+def bases_upstart(rng, tier):
+    """start / registration / teardown calls, one at a time (no event-loop pass): the ops of Model/AllocFail.lean.
+    Every object gets its own descriptor slot, handles and slots are reused after a release (pool reuse, and the
+    same registration made again after a failure)."""
+    nb = 30 if tier == "quick" else 200
+    out = []
+    for bi in range(nb):
+        r = rng.fork("us%d" % bi)
+        ops = []
+        free_slots = list(range(24))
+        live = {k: {} for k in ("nr", "nw", "na", "nc", "nbr", "nbw", "hq")}     # kind -> handle -> slot
+        nbw_resv = {}
+
+        def newh(kind):
+            for h in range(32):
+                if h not in live[kind]:
+                    return h
+            return None
+
+        for _ in range(r.range(3, 14 if tier == "quick" else 30)):
+            k = r.below(100)
+            if k < 30 and free_slots:
+                kind = r.choice(["nr", "nr", "nw", "nw", "na"])
+                h = newh(kind)
+                sl = free_slots.pop(r.below(len(free_slots)))
+                live[kind][h] = sl
+                ops.append("%s_start %d %d" % (kind, h, sl))
+                if r.chance(1, 3):          # the same call again: a retry if the first one failed, `skip` otherwise
+                    ops.append("%s_start %d %d" % (kind, h, sl))
+            elif k < 42:
+                kind = r.choice(["nr", "nw", "na"])
+                if live[kind]:
+                    h = r.choice(sorted(live[kind]))
+                    free_slots.append(live[kind].pop(h))
+                    ops.append("%s_cancel %d" % (kind, h))
+            elif k < 54:
+                h = newh("nc")
+                pat = r.choice(["g", "g", "-", "b", "bg", "bbg", "gb", "bb"])
+                tmo = r.choice(["-", "-", "0", "1", "1000000", "2500000"])
+                live["nc"][h] = None
+                ops.append("nc_start %d %s %s" % (h, pat, tmo))
+                if r.chance(1, 3):
+                    ops.append("nc_start %d %s %s" % (h, pat, tmo))
+            elif k < 60:
+                if live["nc"]:
+                    h = r.choice(sorted(live["nc"]))
+                    live["nc"].pop(h)
+                    ops.append("nc_cancel %d" % h)
+            elif k < 72:
+                if live["nbr"] and r.chance(3, 4):
+                    h = r.choice(sorted(live["nbr"]))
+                    j = r.below(10)
+                    if j < 5:
+                        ln = r.choice([0, 1, 100, 4096, 4097, 8192, 8193, 20000, 100000])
+                        ops.append("nbr_wait %d %d" % (h, ln))
+                        if r.chance(1, 3):
+                            ops.append("nbr_wait %d %d" % (h, ln))
+                    elif j < 8:
+                        ops.append("nbr_cancel %d" % h)
+                    else:
+                        ops.append("nbr_cancel %d" % h)
+                        ops.append("nbr_free %d" % h)
+                        free_slots.append(live["nbr"].pop(h))
+                elif free_slots:
+                    h = newh("nbr")
+                    sl = free_slots.pop(r.below(len(free_slots)))
+                    live["nbr"][h] = sl
+                    ops.append("nbr_init %d %d" % (h, sl))
+                    if r.chance(1, 3):
+                        ops.append("nbr_init %d %d" % (h, sl))
+            elif k < 90:
+                if live["nbw"] and r.chance(4, 5):
+                    h = r.choice(sorted(live["nbw"]))
+                    j = r.below(10)
+                    ln = r.choice([0, 1, 10, 300, 4095, 4096, 4097, 5000, 70000])
+                    if j < 4:
+                        ops.append("nbw_write %d %d" % (h, ln))
+                    elif j < 7:
+                        ops.append("nbw_reserve %d %d" % (h, ln))
+                        if r.chance(1, 4):
+                            ops.append("nbw_reserve %d %d" % (h, ln))
+                        ops.append("nbw_consume %d %d" % (h, r.choice([ln, ln, 0, ln // 2])))
+                    elif j < 9:
+                        ops.append("nbw_write %d %d" % (h, ln))
+                        ops.append("nbw_write %d %d" % (h, ln))
+                    else:
+                        ops.append("nbw_free %d" % h)
+                        free_slots.append(live["nbw"].pop(h))
+                elif free_slots:
+                    h = newh("nbw")
+                    sl = free_slots.pop(r.below(len(free_slots)))
+                    live["nbw"][h] = sl
+                    ops.append("nbw_init %d %d" % (h, sl))
+            else:
+                if live["hq"] and r.chance(1, 2):
+                    h = r.choice(sorted(live["hq"]))
+                    live["hq"].pop(h)
+                    ops.append("hq_cancel %d" % h)
+                else:
+                    h = newh("hq")
+                    live["hq"][h] = None
+                    pat = r.choice(["g", "g", "-", "bg", "b"])
+                    pl = r.choice([0, 1, 17, 200])
+                    ops.append("hq_start %d %s %d" % (h, pat, pl))
+                    if r.chance(1, 3):
+                        ops.append("hq_start %d %s %d" % (h, pat, pl))
+        ops.append("end")
+        out.append(ops)
+    # every start made twice (the second is the retry after a failure), every cancel/free, in one sequence
+    out.append(["nr_start 0 0", "nr_start 0 0", "nw_start 0 0", "nw_start 0 0", "na_start 0 1", "na_start 0 1",
+                "nc_start 0 g 1000000", "nc_start 0 g 1000000", "nc_start 1 - -", "nc_start 1 - -",
+                "nbr_init 0 2", "nbr_init 0 2", "nbr_wait 0 0", "nbr_wait 0 0", "nbr_cancel 0", "nbr_wait 0 9000",
+                "nbr_wait 0 9000", "nbw_init 0 3", "nbw_init 0 3", "nbw_write 0 10", "nbw_write 0 5000",
+                "nbw_reserve 0 100", "nbw_reserve 0 100", "nbw_consume 0 100", "hq_start 0 g 3", "hq_start 0 g 3",
+                "hq_cancel 0", "nbw_free 0", "nbr_cancel 0", "nbr_free 0", "nc_cancel 1", "nc_cancel 0",
+                "na_cancel 0", "nw_cancel 0", "nr_cancel 0", "end"])
+    # more cookies than the pools of network_read.c / network_write.c cache (16): the 17th cancel takes mpool_free's
+    # slow path, where a refused request is harmless
+    many = ["n%s_start %d %d" % (d, i, i) for d in "rw" for i in range(18)]
+    many += ["n%s_cancel %d" % (d, i) for d in "rw" for i in range(18)]
+    many += ["nr_start 0 0", "nw_start 0 0", "nr_cancel 0", "nw_cancel 0", "end"]
+    out.append(many)
     return out
 
 
@@ -208,12 +353,24 @@ def make_components(ctx):
         monitor_args=["afmon"], ldflags=[WRAP + ",--wrap=poll"], **common)
     up = vlib.Component(
         "upper", "h_af_upper.c", UP_SRCS, ["upecho"], None, nontrivial=lambda c: c[0].startswith("fail"),
-        rule="upper (OBSERVED BY FAULT ENUMERATION, NOT PROVED - no Lean failure model): sessions of network_write / "
+        rule="upper (OBSERVED BY FAULT ENUMERATION, NOT PROVED - the completion paths have no Lean failure model; the start / "
+             "teardown paths are component upstart): sessions of network_write / "
              "network_read / netbuf writer (write and reserve+consume) / netbuf reader (wait+peek+consume) / http_request "
-             "(content-length, chunked, 1xx then close-delimited) / humansize / sock_addr_prettyprint over real socketpairs "
+             "(content-length, chunked, 1xx then close-delimited, 1xx with header lines) / aws_sign_* / humansize / sock_addr_prettyprint "
+             "over real socketpairs (transfers up to 1 MB, i.e. several partial sends/receives with re-registration; reader waits of "
+             "growing size with the unconsumed bytes checked after a failed wait) "
              "x {no fault, failat k, failfrom k : every k}; judged by the L1 rules of pmodel upmon only",
-        monitor_args=["upmon"], ldflags=[WRAP + ",--wrap=poll"], ignore_l2=True, env={"H_UPPER_TMP": ctx.tmp}, **common)
-    return [(cont, bases_containers), (ev, bases_events), (up, bases_upper)]
+        monitor_args=["upmon"], ldflags=[WRAP + ",--wrap=poll,--wrap=time"], ignore_l2=True, cpu=[],
+        env={"H_UPPER_TMP": ctx.tmp}, **common)
+    ust = vlib.Component(
+        "upstart", "h_af_upper.c", UP_SRCS, ["upmodel"], None, nontrivial=lambda c: c[0].startswith("fail"),
+        rule="upstart: start / registration / teardown calls of network_read, network_write, network_accept, "
+             "network_connect(_timeo), netbuf reader and writer, http_request, one call per op without an event-loop pass "
+             "(fixed descriptors, harness-side listener) x {no fault, failat k, failfrom k : every k}; lock-step with "
+             "Model/AllocFail.lean: live library blocks, request sizes in order (hence the number of consultations), "
+             "which descriptors have a reader/writer registered, number of immediate events and timers, pool fill",
+        monitor_args=["upmon"], ldflags=[WRAP + ",--wrap=poll,--wrap=time"], cpu=[], env={"H_UPPER_TMP": ctx.tmp}, **common)
+    return [(cont, bases_containers), (ev, bases_events), (up, bases_upper), (ust, bases_upstart)]
 
 
 def components(ctx):
@@ -231,7 +388,7 @@ def run_components(ctx, names=None):
         if names is not None and comp.name not in names:
             continue
         ctx.rules.append("%s: %s" % (comp.name, comp.rule))
-        exe, err = vlib.build_harness(ctx, comp.name, comp.harness, comp.srcs, extra=comp.extra, ldflags=comp.ldflags)
+        exe, err = vlib.build_harness(ctx, comp.name, comp.harness, comp.srcs, cpu=comp.cpu, extra=comp.extra, ldflags=comp.ldflags)
         if exe is None:
             vlib.process_failures(ctx, comp, [{"kind": "BUILD", "case": [], "index": -1, "detail": {"stderr": err}, "crash": None}])
             continue
@@ -249,12 +406,16 @@ def check(ctx):
         "only allocations made by library code are counted and failed (a depth flag set around every call into the library, "
         "cleared inside user callbacks); libc-internal allocations (atexit, stdio) are not intercepted",
         "proof-level part: poll() reports no descriptor ready and the clock is the harness's, so events_run is deterministic",
+        "upstart: no event-loop pass between the calls (a started request stays outstanding until cancelled); descriptors are "
+        "fixed (slot i = fd 64+i, connect sockets = lowest free fd), addresses either connect at once or fail at once",
         "the object pools' cache size (4096) is not crossed by the event sweeps (the doubling path is covered by C12's pool component)"]
-    ctx.trusted += ["pmodel (compiled Lean models and monitors)", "harness/h_ds.c, h_allocfail.c, hwrap.h (allocation wrappers, "
-                    "white-box state dumps)", "gcc ASan/UBSan as the crash/out-of-bounds detector, the wrappers' live-block table as the leak detector"]
+    ctx.trusted += ["pmodel (compiled Lean models and monitors)", "harness/h_ds.c, h_allocfail.c, h_af_upper.c, hwrap.h (allocation "
+                    "wrappers, white-box state dumps)", "gcc ASan/UBSan as the crash/out-of-bounds detector, the wrappers' live-block table as the leak detector"]
     vlib.proof_audit(ctx, MODULES)
     run_components(ctx)
     return vlib.finish(ctx, "proof", MODULES,
-                       explanation="level 'proof' applies to the components 'containers' and 'events' (Lean models + theorems + "
-                                   "lock-step tie); the component 'upper' (network_read/write, netbuf, http, asprintf users) is "
+                       explanation="level 'proof' applies to the components 'containers', 'events' and 'upstart' (Lean models + "
+                                   "theorems + lock-step tie; 'upstart' = start / registration / teardown paths of network_read, "
+                                   "network_write, network_accept, network_connect(_timeo), netbuf reader/writer, http_request); the "
+                                   "component 'upper' (whole sessions: completion callbacks, HTTP response parser, asprintf users) is "
                                    "observed by fault enumeration against the L1 monitor only, not proved")
